@@ -22,6 +22,14 @@ pub fn broadcast_leaves(var: u64) -> Vec<LeafSpec> {
     ]
 }
 
+pub fn dense_leaves(var: u64) -> Vec<LeafSpec> {
+    vec![
+        LeafSpec { dims: vec![2, 3], vals: vec![1.0, -2.0, 3.0 + var as f64, 0.5, 1.5, -1.0], tracked: false },
+        LeafSpec { dims: vec![2, 3], vals: vec![2.0, 1.0, -1.0, -3.0, 0.5 + var as f64, 2.0], tracked: true },
+        LeafSpec { dims: vec![2], vals: vec![0.5, -1.5], tracked: true },
+    ]
+}
+
 pub fn base_cfg(name: &str, leaves: Vec<LeafSpec>, ops: Vec<OpK>, nslots: usize) -> MCfg {
     MCfg {
         name: name.to_string(),
@@ -72,6 +80,12 @@ pub fn machines(opts: &Opts) -> Vec<MCfg> {
             m.seeds = vec![0];
             m.merged = false;
             out.push(m);
+            // the dense-layer graph x W^T + b with an untracked input, differentiated repeatedly
+            let mut m = base_cfg("N2P2C1/dense-like", dense_leaves(var), vec![OpK::Matmul { ta: false, tb: true, bias: true }, OpK::Relu, OpK::Mul], 5);
+            m.bounds = b(2, 2, 1, 0, 5);
+            m.seeds = vec![0, 1];
+            m.check_fresh_diff = true;
+            out.push(m);
             // handles cloned, flagged and dropped between passes
             let two: Vec<LeafSpec> = same_shape_leaves(var).into_iter().take(2).collect();
             let mut m = base_cfg("N1P2F2K1D1/handles-between-passes", two, vec![OpK::Mul], 4);
@@ -110,6 +124,11 @@ pub fn machines(opts: &Opts) -> Vec<MCfg> {
             m.bounds = b(2, 2, 1, 1, 6);
             m.seeds = vec![0];
             m.merged = false;
+            out.push(m);
+            let mut m = base_cfg("N3P2C1/dense-like", dense_leaves(var), vec![OpK::Matmul { ta: false, tb: true, bias: true }, OpK::Relu, OpK::Mul, OpK::Sum(1)], 6);
+            m.bounds = b(3, 2, 1, 0, 6);
+            m.seeds = vec![0, 1];
+            m.check_fresh_diff = true;
             out.push(m);
             let two: Vec<LeafSpec> = same_shape_leaves(var).into_iter().take(2).collect();
             let mut m = base_cfg("N2P3F2K1D1/handles-between-passes", two, vec![OpK::Mul, OpK::Neg], 5);
